@@ -287,7 +287,10 @@ class TheoryOracle(walkers.DagWalker):
         return theory_out
 
     def walk_pow(self, formula: FNode, args: List[Theory], **kwargs) -> Theory:
-        return args[0].set_linear(False)
+        theory_out = args[0].set_linear(False)
+        # A power is typed Real whatever the type of the base
+        theory_out.real_arithmetic = True
+        return theory_out
 
     def walk_plus(self, formula: FNode, args: List[Theory], **kwargs) -> Theory:
         theory_out = args[0]
